@@ -64,14 +64,14 @@ CLAIMED["C10"] = dict(
 
 
 CLAIMED["C18"] = dict(
-   text="Decides the structural necessary conditions of transparency, not schedule independence: an interval + difference-bound abstract interpretation of prchunk_fill, started from the window invariants (bytes filled and consumed offset within the mapping, lines recorded within the line table) proves for every read() schedule that the read target, the line-end stamps, the look-behind for CR and the carried-over tail copy stay inside the 16 MiB mapping, that every index into the line table is below its extent, and that the invariants hold again at every successful return (an inductive argument over fills); the read count moves the fill cursor only when positive; every byte class the reader overwrites in place has a restore in each consumer's copy-through path (the missing CR restore is recorded as known finding D18); each sed-mode loop writes prefix, converted value and rest exactly once in order.",
+   text="Decides the structural necessary conditions of transparency, not schedule independence: an interval + difference-bound abstract interpretation of prchunk_fill, started from the window invariants (bytes filled and consumed offset within the mapping, lines recorded within the line table) proves for every read() schedule that the read target, the line-end stamps, the look-behind for CR and the carried-over tail copy stay inside the 16 MiB mapping, that every index into the line table is below its extent, and that the invariants hold again at every successful return (an inductive argument over fills); the read count moves the fill cursor only when positive; failure is reported only with an empty window or because a single line does not fit it (no line is dropped at the end of input); every byte class the reader overwrites in place has a restore in each consumer's copy-through path (the missing CR restore is recorded as known finding D18); each sed-mode loop writes prefix, converted value and rest exactly once in order.",
    note="Independence of the output from how the stream is cut into read() results is a statement about schedules and is not decided statically; only the memory-safety and pairing conditions without which lines are lost or corrupted are. Assumes read() returns at most the count requested.",
    technique="static analysis: abstract interpretation (intervals + difference bounds, memchr span model, exact difference facts) over the clang CFG; CFG pairing/ordering rules for the consumers",
    ref="DESIGN.md §4 C18")
 
 
 CLAIMED["C19"] = dict(
-   text="Decides memory safety of the zone file and zone map loaders for all file contents at once: a linear-form abstract interpretation (each variable an exact linear form over symbols standing for the header counts and the file size, branch conditions kept as facts, trace partitioning on the version byte, a syntactic prover that searches a non-negative combination of facts) shows for every access of zif_open, tzm_open and the map validator to the file image that offset >= 0 and offset + length <= file size, and for every store into the object zif_open allocates that it lies inside the malloc'ed size (difference bounds from the interval engine cover the compaction loop); offsets are computed in 64 bits. Further: every version the header switch accepts is decoded by the data switch; transition types copied from the file are compared, strictly and for all indices, with the number of types before the object is returned, and that number is >= 1; tzm_open succeeds only if the validator accepted (image, size); the validator accepts only if the pool offset lies inside the file and compares the zone offsets with the pool size; tzm_find never dereferences an empty range; the map compiler's record word and the reader's decoding agree (mask, shift, byte order) and the masked zone offset is range checked at the call.",
+   text="Decides memory safety of the zone file and zone map loaders for all file contents at once: a linear-form abstract interpretation (each variable an exact linear form over symbols standing for the header counts and the file size, branch conditions kept as facts, trace partitioning on the version byte, a syntactic prover that searches a non-negative combination of facts) shows for every access of zif_open, tzm_open and the map validator to the file image that offset >= 0 and offset + length <= file size, and for every store into the object zif_open allocates that it lies inside the malloc'ed size (difference bounds from the interval engine cover the compaction loop); offsets are computed in 64 bits. Further: every version the header switch accepts is decoded by the data switch; transition types copied from the file are compared, strictly and for all indices, with the number of types before the object is returned, and that number is >= 1; tzm_open succeeds only if the validator accepted (image, size); the validator accepts only if the pool offset lies inside the file and compares the zone offsets with the pool size; tzm_find never dereferences an empty range and starts the upper half of its bisection behind the probed record (the zone offset word is located from the key's terminator); the map compiler's record word and the reader's decoding agree (mask, shift, byte order) and the masked zone offset is range checked at the call.",
    note="The argument that tzm_find's byte scans stay inside a validated map rests on the NUL delimiters the validator demands and is written out in DESIGN.md, it is not decided by the tool; faithfulness of the bisection for all maps (sortedness of the source) is not decided. Assumes the file does not change while mapped.",
    technique="static analysis: linear-form abstract interpretation with symbolic header counts and a syntactic Farkas-style prover; interval/difference-bound analysis; CFG dominance/guard rules; constant agreement between sibling encoder/decoder",
    ref="DESIGN.md §4 C19")
@@ -92,14 +92,14 @@ CLAIMED["C04"] = dict(
 
 
 CLAIMED["C06"] = dict(
-   text="Decides the refinement rule structurally for all durations and all subsets of the fixed-ratio units week / day / hour / minute / second: in precalc the total is made non-negative, the unit blocks come in strictly decreasing unit order, each divides and reduces by the same constant and the seconds slot receives the rest, so the printed components recombine to the total truncated toward zero; an interval analysis partitioned by the four request flags proves, for each of the 16 flag combinations, every refined component inside [0, next-coarser-requested/own - 1] and the coarsest non-negative; sibling agreement ties the constants to the specifiers: the specifier that sets a flag (determine_durfmt) prints the field (__strfdtdur) that the block guarded by that flag fills (precalc), with the number of seconds of that specifier's unit; the print loop never writes the precomputed components (each specifier may occur repeatedly) and exactly one minus sign is written, before the loop, from the sign of the total; every product of a day count with 86400 or 604800 in ddiff and dt-core is computed in 64 bits.",
+   text="Decides the refinement rule structurally for all durations and all subsets of the fixed-ratio units week / day / hour / minute / second: in precalc the total is made non-negative, the unit blocks come in strictly decreasing unit order, each divides and reduces by the same constant and the seconds slot receives the rest, so the printed components recombine to the total truncated toward zero; an interval analysis partitioned by the four request flags proves, for each of the 16 flag combinations, every refined component inside [0, next-coarser-requested/own - 1] and the coarsest non-negative; sibling agreement ties the constants to the specifiers: the specifier that sets a flag (determine_durfmt) prints the field (__strfdtdur) that the block guarded by that flag fills (precalc), with the number of seconds of that specifier's unit; the print loop never writes the precomputed components (each specifier may occur repeatedly) and exactly one minus sign is written, before the loop, from the sign of the total; every product of a day count with 86400 or 604800 in ddiff and dt-core is computed in 64 bits; every case of dt_ddiff that borrows a day from the date part reports it in res.fix after the last whole assignment of the result, and dt_dtdiff shifts the seconds by one day when the flag is set.",
    note="That dt_dtdiff delivers the true difference as days + seconds, and the month / year / quarter split (not fixed ratios) are not decided here. The leap second correction is attributed to the seconds slot only, so 'seconds < 60' is not claimed.",
    technique="static analysis: structural decoding of the unit cascade, trace-partitioned interval abstract interpretation, sibling agreement across three switch tables, write-set analysis, type-width rule on products",
    ref="DESIGN.md §4 C06")
 
 
 CLAIMED["C09"] = dict(
-   text="Decides the case-by-case agreement between the separately written parser and printer switch statements, the structural precondition of the round trip for every format string at once: for the date (cardinal and Roman) and time families every specifier has a working case on both sides; the parser stores into the scratch field the printer prints from; where the printer honours the padding modifier the parser reads with a padding-aware reader; the limits the parser accepts contain the range the printer can produce for valid values (month 12, day 31, weekday 7, count 5, day-of-year 366, week 53, hour 23, minute 59, second 60, quarter 4); every call of the fixed-width digit printers asks for a width the helper has digits for (interval analysis of the width argument); the 12-hour clock as printed (digits and AM/PM marker, folded over the 24 hours) reads back through the parser's rule as the same hour.",
+   text="Decides the case-by-case agreement between the separately written parser and printer switch statements, the structural precondition of the round trip for every format string at once: for the date (cardinal and Roman) and time families every specifier has a working case on both sides; the parser stores into the scratch field the printer prints from; where the printer honours the padding modifier the parser reads with a padding-aware reader; the limits the parser accepts contain the range the printer can produce for valid values (month 12, day 31, weekday 7, count 5, day-of-year 366, week 53, hour 23, minute 59, second 60, quarter 4); every call of the fixed-width digit printers asks for a width the helper has digits for (interval analysis of the width argument); the 12-hour clock as printed (digits and AM/PM marker, folded over the 24 hours) reads back through the parser's rule as the same hour; the Roman numeral printer is a proper decimal cascade for its digit helper (thousands loop while d >= 1000 with step 1000, then /100 %100, /10 %10, units).",
    note="parse(format(x)) = x for all values and all format strings is NOT decided: it also depends on computed digits, adjacent variable-width fields and the calendar guess from the set of parsed fields. The tokenizer shared by both sides is covered by C10.",
    technique="static analysis: sibling cross-check of switch tables (case sets, field read/write sets, callee capabilities, literal limits), interval analysis of width arguments, table decoding by constant folding over 24 values",
    ref="DESIGN.md §4 C09")
